@@ -3,6 +3,7 @@ package main
 // Contract-expression builtins (spec mode).
 
 import (
+	"os"
 	"fmt"
 	"go/ast"
 	"go/token"
@@ -487,6 +488,9 @@ func (ec *evalCtx) specCall(call *ast.CallExpr) Value {
 		}
 		t := ec.e().evalTypeExpr(ec.pkg, ec.typePos(), call.Args[1])
 		_, p := ec.assertTo(iv, t)
+		if os.Getenv("GOVC_DEBUG") != "" {
+			fmt.Fprintf(os.Stderr, "payload(%s) type=%v underlying=%T value=%T\n", exprText(call.Args[1]), t, t.Underlying(), p)
+		}
 		return p
 	case "underlying":
 		need(1)
